@@ -112,6 +112,24 @@ pub struct Config {
     pub transform: TransformConfig,
 }
 
+/// Do the two (existing) paths refer to the same file?
+///
+/// Different spellings, symlinks and - where it can be determined - hard links
+/// to a single file all count as the same file.
+fn same_file(a: &Path, b: &Path) -> Result<bool> {
+    #[cfg(unix)]
+    {
+        use std::os::unix::fs::MetadataExt;
+        if let (Ok(meta_a), Ok(meta_b)) = (std::fs::metadata(a), std::fs::metadata(b)) {
+            if meta_a.dev() == meta_b.dev() && meta_a.ino() == meta_b.ino() {
+                return Ok(true);
+            }
+        }
+    }
+    Ok(a.canonicalize().map_err(SvgdxError::from_err)?
+        == b.canonicalize().map_err(SvgdxError::from_err)?)
+}
+
 impl Config {
     fn from_args(args: Arguments) -> Result<Self> {
         if args.watch && args.file == "-" {
@@ -126,10 +144,7 @@ impl Config {
             // as high-level as possible to keep the lower level API cleaner.
             let in_path = Path::new(&args.file);
             let out_path = Path::new(&args.output);
-            if out_path.exists()
-                && out_path.canonicalize().map_err(SvgdxError::from_err)?
-                    == in_path.canonicalize().map_err(SvgdxError::from_err)?
-            {
+            if out_path.exists() && same_file(in_path, out_path)? {
                 return Err(SvgdxError::from(
                     "Output path must not refer to the same file as the input file.",
                 ));
